@@ -139,7 +139,25 @@ func r18b(c *an.Ctx) {
 	}
 	c.Subject()
 	subscribed := lookupConstInt(c, "github.com/mesos/mesos-go/api/v1/lib/scheduler", "Event_SUBSCRIBED")
+	// sendsReconcile: f sends a RECONCILE call to the master on every path
+	sendsReconcile := func(f *ssa.Function) bool {
+		for _, ci := range an.CallsSuffix(f, "scheduler/calls.Reconcile") {
+			rec, isCall := ci.(*ssa.Call)
+			if !isCall {
+				continue
+			}
+			for _, snd := range an.CallsSuffix(f, "scheduler/calls.CallNoData") {
+				if len(snd.Common().Args) > 2 && snd.Common().Args[2] == ssa.Value(rec) && !an.PathFromEntryAvoiding(f, an.IsExit, []ssa.Instruction{snd}) {
+					return true
+				}
+			}
+		}
+		return false
+	}
+	// the handlers the SUBSCRIBED registration is built from: function literals and method values in the chain, and the
+	// literals returned by same-package constructor calls in the chain (reconciliationCall() style)
 	wired := false
+	var handler *ssa.Function
 	an.Instrs(bh, func(in ssa.Instruction) {
 		mu, ok := in.(*ssa.MapUpdate)
 		if !ok {
@@ -149,31 +167,47 @@ func r18b(c *an.Ctx) {
 		if !ok || subscribed == nil || k != *subscribed {
 			return
 		}
-		for _, l := range an.BackSlice(mu.Value, an.SliceOpts{LeafCall: func(n string, _ *ssa.Call) bool {
-			return n == "(*core/task.schedulerState).reconciliationCall"
+		var cands []*ssa.Function
+		for _, l := range an.BackSlice(mu.Value, an.SliceOpts{LeafCall: func(n string, cl *ssa.Call) bool {
+			cal := cl.Call.StaticCallee()
+			return cal != nil && cal.Pkg == bh.Pkg && len(cal.AnonFuncs) > 0
 		}}) {
-			if l.Kind == "call" {
-				wired = true
-			}
-		}
-	})
-	c.Ob("core/task.(*schedulerState).buildEventHandler|SUBSCRIBED->reconcile", bh.Pos(), wired, "the handler registered for Event_SUBSCRIBED must include reconciliationCall()")
-	rc := c.MustFn("core/task", "schedulerState.reconciliationCall")
-	if rc != nil && len(rc.AnonFuncs) == 1 {
-		c.Subject()
-		f := rc.AnonFuncs[0]
-		c.Mark(f)
-		ok := false
-		for _, ci := range an.CallsSuffix(f, "scheduler/calls.Reconcile") {
-			rec := ci.(*ssa.Call)
-			for _, snd := range an.CallsSuffix(f, "scheduler/calls.CallNoData") {
-				if snd.Common().Args[2] == ssa.Value(rec) && !an.PathFromEntryAvoiding(f, an.IsExit, []ssa.Instruction{snd}) {
-					ok = true
+			switch l.Kind {
+			case "call":
+				if cl, isCall := l.Val.(*ssa.Call); isCall && cl.Call.StaticCallee() != nil {
+					cands = append(cands, cl.Call.StaticCallee().AnonFuncs...)
+				}
+			case "func":
+				if f := an.ClosureFn(l.Val); f != nil {
+					cands = append(cands, f)
+				} else if f, isF := l.Val.(*ssa.Function); isF {
+					cands = append(cands, f)
 				}
 			}
 		}
-		c.Ob("core/task.(*schedulerState).reconciliationCall[handler]|sends-reconcile", f.Pos(), ok, "the handler must send a RECONCILE call on every path")
+		for _, f := range cands {
+			if f.Synthetic != "" && f.Blocks != nil {
+				// bound method wrapper: look at the method it forwards to
+				an.Instrs(f, func(in ssa.Instruction) {
+					if cl, isCall := in.(*ssa.Call); isCall && cl.Call.StaticCallee() != nil && cl.Call.StaticCallee().Pkg == bh.Pkg {
+						cands = append(cands, cl.Call.StaticCallee())
+					}
+				})
+			}
+		}
+		for _, f := range cands {
+			if f.Blocks != nil && sendsReconcile(f) {
+				wired = true
+				handler = f
+			}
+		}
+	})
+	c.Ob("core/task.(*schedulerState).buildEventHandler|SUBSCRIBED->reconcile", bh.Pos(), wired, "the handler chain registered for Event_SUBSCRIBED must include a handler that requests reconciliation")
+	c.Subject()
+	if handler != nil {
+		c.Mark(handler)
 	}
+	c.Ob("core/task.(*schedulerState).reconciliationCall[handler]|sends-reconcile", bh.Pos(), handler != nil, "the reconciliation handler must send a RECONCILE call on every path")
 }
 
 func lookupConstInt(c *an.Ctx, pkg, name string) *int64 {
